@@ -207,7 +207,7 @@ def oracle_split(c, r):
     if not r[2]["same"] or r[2]["arg"] != res:
         return Failure(dict(sig, clause="returns-its-argument"), "the returned textgrid is not the (mutated) argument")
     src = _tier(g, c["src"])
-    ses = [list(e) for e in src["es"]]
+    ses = [list(e) for e in src["es"]] if src["k"] == "I" else []
     if window:
         ses = _clip(ses, a, b)
     got = _tier(res, c["tgt"])["es"]
@@ -356,6 +356,16 @@ def gen_split(rnd, domain):
     if rnd.random() < 0.03:
         c["src"] = "nope"
         c["anyerr"] = "an absent source tier"
+    elif rnd.random() < 0.03 and "pp" in names and c["tgt"] != "pp":
+        # a point tier as source (type-incorrect): fine while it has no points in the window, else the built-in ValueError of
+        # tuple unpacking — compared with the model (`sourceEntries`), judged only as "raises"
+        c["src"] = "pp"
+        pp = next(t for t in g["tiers"] if t["name"] == "pp")
+        a = g["lo"] if c["a"] is None else c["a"]
+        b = g["hi"] if c["b"] is None else c["b"]
+        window = c["a"] is not None or c["b"] is not None
+        if (window and a >= b) or any((not window) or a <= e[0] <= b for e in pp["es"]):
+            c["anyerr"] = "a point tier with points as source"
     return c
 
 
